@@ -99,6 +99,7 @@ package evm
 //@   implements (ITrxHandler_TrxEVMHandler).ExecuteTrx
 //@   objinv wf_evm(ctrler) && no_accessed(ctrler.stateDBWrapper)
 //@   assumes ctrler.stateDBWrapper.acctHandler == ctx.AcctHandler
+//@   assumes !isbal(ctx.Tx.Amount) && !isbal(ctx.Tx.GasPrice)
 //@   assumes ctx.Sender == acctof(ctx.AcctHandler, content(ctx.Tx.From), ctx.Exec ? 1 : 0) && balowner(ctx.Sender.Balance) == ctx.Sender && isbal(ctx.Sender.Balance) && len(ctx.Tx.From) == 20
 //@   requires wf_ctx(ctx)
 //@   requires ctx.Tx.Type == 6 || (ctx.Tx.Type == 1 && ctx.Receiver.Code != nil)
